@@ -24,6 +24,7 @@ CONSTANTS
   Styles = {"Title"}
   MLs = {1, 3}
   TSLvls = {0}
+  Files = {FALSE}
   MaxK = 2
   Depth = 0
   MaxItems = 2
